@@ -25,6 +25,19 @@ class Scale(nn.Module):
         return x * self.gain
 
 
+class LoRALinear(nn.Linear):
+    """A supported type that owns child modules: not a leaf, so it is not
+    registered itself (its two children are)."""
+
+    def __init__(self):
+        super().__init__(3, 2)
+        self.down = nn.Linear(3, 1, bias=False)
+        self.up = nn.Linear(1, 2, bias=False)
+
+    def forward(self, x):
+        return super().forward(x) + self.up(self.down(x))
+
+
 class Wrap(nn.Module):
     def __init__(self, inner):
         super().__init__()
@@ -47,7 +60,7 @@ class Branches(nn.Module):
 
 
 LEAVES = ['Lin', 'LinNB', 'Conv', 'ConvNB', 'BN2d', 'BN1d', 'LN', 'Emb',
-          'Scale', 'Frozen', 'HalfFrozen', 'Skipped', 'Chain']
+          'Scale', 'Frozen', 'HalfFrozen', 'Skipped', 'Chain', 'LoRA']
 
 
 def mk_leaf(kind):
@@ -79,6 +92,8 @@ def mk_leaf(kind):
         m = nn.Linear(3, 2)
         m.bias.requires_grad_(False)
         return m, (2, 3)
+    if kind == 'LoRA':
+        return LoRALinear(), (2, 3)
     if kind == 'Skipped':
         return nn.Sequential(nn.Linear(3, 2)), (2, 3)   # name '...skipme'
     if kind == 'Chain':
@@ -154,6 +169,40 @@ def eval_between(model, twin, pre, shapes, dtype, step, seed):
     return None
 
 
+def mixed_mode_check(model, pre, shapes, dtype, seed):
+    """Part of the model in eval mode (every other registered module,
+    starting with the first), the rest training: a forward/backward pass
+    must leave the K-FAC state of the eval-mode layers unchanged.  Runs on
+    a second, freshly built model + preconditioner."""
+    m2, p2 = model, pre
+    regs = list(p2._layers.items())
+    if len(regs) < 2:
+        return None
+    m2.train()
+    frozen = []
+    for i, (mod, (name, layer)) in enumerate(regs):
+        if i % 2 == 0 and i != len(regs) - 1:
+            mod.eval()
+            frozen.append((name, layer))
+
+    def dg():
+        return {name: _dg({k: v for k, v in vars(layer).items()
+                           if k not in ('module', 'tdc')},
+                          p2._mini_steps.get(name, 0))
+                for name, layer in frozen}
+
+    before = dg()
+    out = m2(inputs(shapes, dtype, 900, seed))
+    if out.requires_grad:
+        out.backward()
+    after = dg()
+    for name in before:
+        if before[name] != after[name]:
+            return (f'layer {name} is in eval mode (other layers train): a '
+                    'forward/backward pass changed its K-FAC state')
+    return None
+
+
 def case(part, item):
     kinds, dname, (method, prediv), idt, fdt, modes, seed = item[:7]
     kl = item[7] if len(item) > 7 else 1e-3
@@ -193,6 +242,13 @@ def case(part, item):
             for pn, _p in mod.named_parameters():
                 reg.add(f'{lname}.{pn}')
         trained = False
+        model_m, _ = build(kinds, dtype, seed)
+        err = mixed_mode_check(
+            model_m, kfac.preconditioner.KFACPreconditioner(model_m, **kw),
+            shapes, dtype, seed)
+        if err:
+            bad('eval-changed-state', err)
+            return
         for step, mode in enumerate(modes):
             part.count('evaluations')
             xs = inputs(shapes, dtype, step, seed)
@@ -395,17 +451,17 @@ def main(run: core.Run):
     run.c['distinct_nontrivial'] = len(run.distinct.get('nontrivial', ()))
     run.notes['programs'] = len(progs)
     run.rule = (
-        f'every multiset of <= {maxl} leaves from 13 kinds (Linear/Conv2d '
+        f'every multiset of <= {maxl} leaves from 14 kinds (Linear/Conv2d '
         '+/- bias, BatchNorm1d/2d with buffers, LayerNorm, Embedding, an '
         'unsupported custom module, frozen and half-frozen Linear, a Linear '
-        'excluded by a skip pattern, a Sequential chain) as parallel '
+        'excluded by a skip pattern, a Linear subclass owning child layers, a Sequential chain) as parallel '
         'branches x parameter dtype x method x inverse/factor dtype x '
         'clipping {active, inactive, None} x hook/no-hook x accumulation {1,2} '
         '(with eval passes inserted between micro-batches and between '
         'backward and step) x gradient scaler {none, 8} x '
         'train/eval mode histories of length 3; bit-exact snapshots of '
         'state_dict and all .grad tensors around step(), digest of all '
-        'K-FAC state around eval passes, outputs/gradients vs a deep-copied '
+        'K-FAC state around eval passes (whole model, and part of the model in eval mode), outputs/gradients vs a deep-copied '
         'twin without K-FAC; non-trivial = trained programs mixing '
         'registered and unregistered parameters; plus a float16 family whose '
         'clip inner product overflows to +inf and -inf (finite inputs must '
